@@ -1245,7 +1245,17 @@ pub fn run(ctx: &Ctx) -> i32 {
             for _ in 0..12 {
                 let i = rng.usize_below(n);
                 let mut t = pr.toks.clone();
-                let class = match rng.below(5) {
+                let class = match rng.below(6) {
+                    5 => {
+                        // a declared name (identifier followed by ':') replaced by another declared name
+                        let decls: Vec<usize> = (0..n.saturating_sub(1)).filter(|k| t[*k + 1] == ":" && t[*k].chars().next().map(|c| c.is_ascii_alphabetic() || c == '_').unwrap_or(false)).collect();
+                        if decls.len() >= 2 {
+                            let a = *rng.pick(&decls);
+                            let b = *rng.pick(&decls);
+                            t[a] = t[b].clone();
+                        }
+                        "generated: declared name replaced by another declared name"
+                    }
                     0 => {
                         t.truncate(i);
                         "generated: token prefix"
